@@ -8,22 +8,23 @@ structure DRef (kind : DKind) (d : DSt) (op : DOp) : Prop where
   st : dabs (dstep kind d op).1 = (dspecStep kind (dabs d) op).1
   out : (dstep kind d op).2 = (dspecStep kind (dabs d) op).2
 
-theorem dref_erase (kind : DKind) (d : DSt) (k : Name) :
-    DRef kind d (.del k) ∧ DRef kind d (.pop k) ∧ DRef kind d (.popd k) := by
+theorem dref_erase (kind : DKind) (d : DSt) (k : Name) (dv : Nat) :
+    DRef kind d (.del k) ∧ DRef kind d (.pop k) ∧ DRef kind d (.popd k) ∧ DRef kind d (.popdv k dv) := by
   have hd : dabs d (lower k) = alookup (lower k) d := rfl
   cases hl : alookup (lower k) d with
   | none =>
     rw [hl] at hd
-    refine ⟨?_, ?_, ?_⟩ <;> constructor <;> simp [dstep, dspecStep, hl, hd]
+    refine ⟨?_, ?_, ?_, ?_⟩ <;> constructor <;> simp [dstep, dspecStep, hl, hd]
   | some v =>
     rw [hl] at hd
-    refine ⟨?_, ?_, ?_⟩ <;> constructor <;>
+    refine ⟨?_, ?_, ?_, ?_⟩ <;> constructor <;>
       simp only [dstep, dspecStep, hl, hd, dabs_aerase]
 
 theorem dstep_refines (kind : DKind) (d : DSt) (op : DOp) : DRef kind d op := by
   cases op with
   | set k v => exact ⟨dabs_aset _ _ _, rfl⟩
   | get k => exact ⟨rfl, rfl⟩
+  | getd k dv => exact ⟨rfl, rfl⟩
   | contains k => exact ⟨rfl, rfl⟩
   | getitem k =>
     have hd : dabs d (lower k) = alookup (lower k) d := rfl
@@ -36,9 +37,10 @@ theorem dstep_refines (kind : DKind) (d : DSt) (op : DOp) : DRef kind d op := by
       | dflt =>
         constructor <;> simp only [dstep, dspecStep, hl, hd]
         exact dabs_aset _ _ _
-  | del k => exact (dref_erase kind d k).1
-  | pop k => exact (dref_erase kind d k).2.1
-  | popd k => exact (dref_erase kind d k).2.2
+  | del k => exact (dref_erase kind d k 0).1
+  | pop k => exact (dref_erase kind d k 0).2.1
+  | popd k => exact (dref_erase kind d k 0).2.2.1
+  | popdv k dv => exact (dref_erase kind d k dv).2.2.2
   | setdefault k v =>
     have hd : dabs d (lower k) = alookup (lower k) d := rfl
     cases hl : alookup (lower k) d with
